@@ -2,7 +2,7 @@
    shown to return `Some` of a Q-level function (refinement lemmas *_lift: this is the
    "never NaN" half), and the Q-level functions are analysed with lra / nra. *)
 From Coq Require Import ZArith QArith Qabs Qround Qminmax List Bool Lia Lqa.
-From FV Require Import Common.ListX Common.CMonoid Common.NanQ gen.Gen_compression Model.C11_Model.
+From FV Require Import Common.ListX Common.CMonoid Common.NanQ Common.NanVec gen.Gen_compression Model.C11_Model.
 Import ListNotations.
 Local Open Scope Q_scope.
 
@@ -15,7 +15,7 @@ Definition usq_vc (Lm c : Q) : Q := inject_Z (Qceiling (c * Lm)) / Lm.
 Definition usq_t (Lm c : Q) : Q :=
   if Qeq_bool (usq_vc Lm c - usq_vf Lm c) 0 then 0 else (c - usq_vf Lm c) / (usq_vc Lm c - usq_vf Lm c).
 Definition usq1_q (vmin vmax : Q) (L : Z) (x u : Q) : Q :=
-  let Lm := inject_Z (L - 1) in
+  let Lm := inject_Z L - 1 in
   let c := rescale_q vmin vmax x in
   vmin + (if Qltb (usq_t Lm c) u then usq_vf Lm c else usq_vc Lm c) * (vmax - vmin).
 
@@ -26,13 +26,16 @@ Proof. unfold rescale, rescale_q. cbn. destruct (Qeq_bool (vmax - vmin) 0); refl
 Lemma bsq1_lift vmin vmax x u : bsq1 (Some vmin) (Some vmax) (Some x) u = Some (bsq1_q vmin vmax x u).
 Proof. unfold bsq1, bsq1_q. rewrite rescale_lift. cbn. destruct (Qle_bool (rescale_q vmin vmax x) u); reflexivity. Qed.
 
-Lemma Lm_nonzero L : (2 <= L)%Z -> Qeq_bool (inject_Z (L - 1)) 0 = false.
-Proof.
-  intros H. apply Qeq_bool_false_iff. intros E. assert (0 < inject_Z (L - 1)); [|lra].
-  change 0 with (inject_Z 0). rewrite <- Zlt_Qlt. lia.
-Qed.
+Lemma Lm_ge1 L : (2 <= L)%Z -> 1 <= inject_Z L - 1.
+Proof. intros H. assert (2 <= inject_Z L) by (change 2 with (inject_Z 2); rewrite <- Zle_Qle; exact H). lra. Qed.
 
-Lemma Lm_neq L : (2 <= L)%Z -> ~ inject_Z (L - 1) == 0.
+Lemma Lm_eq L : inject_Z L - 1 == inject_Z (L - 1).
+Proof. unfold Zminus. rewrite inject_Z_plus. reflexivity. Qed.
+
+Lemma Lm_nonzero L : (2 <= L)%Z -> Qeq_bool (inject_Z L - 1) 0 = false.
+Proof. intros H. apply Qeq_bool_false_iff. pose proof (Lm_ge1 L H). lra. Qed.
+
+Lemma Lm_neq L : (2 <= L)%Z -> ~ inject_Z L - 1 == 0.
 Proof. intros H. apply Qeq_bool_false_iff, Lm_nonzero, H. Qed.
 
 Lemma usq_floor_lift Lm c : ~ Lm == 0 -> usq_floor (Some Lm) (Some c) = Some (usq_vf Lm c).
@@ -51,9 +54,10 @@ Lemma usq1_lift vmin vmax L x u : (2 <= L)%Z ->
   usq1 (Some vmin) (Some vmax) L (Some x) u = Some (usq1_q vmin vmax L x u).
 Proof.
   intros HL. pose proof (Lm_neq L HL) as Hn. unfold usq1, usq1_q. rewrite rescale_lift.
-  unfold NanQ.of_Z. rewrite usq_threshold_lift, usq_floor_lift, usq_ceil_lift by exact Hn.
+  unfold NanQ.of_Z. change (NanQ.sub (Some (inject_Z L)) NanQ.one) with (Some (inject_Z L - 1)).
+  rewrite usq_threshold_lift, usq_floor_lift, usq_ceil_lift by exact Hn.
   unfold NanQ.gtb, NanQ.ltb.
-  destruct (Qltb (usq_t (inject_Z (L - 1)) (rescale_q vmin vmax x)) u);
+  destruct (Qltb (usq_t (inject_Z L - 1) (rescale_q vmin vmax x)) u);
     cbn [NanQ.where_]; rewrite NanQ.sub_Some, NanQ.mul_Some, NanQ.add_Some; reflexivity.
 Qed.
 
@@ -94,7 +98,7 @@ Proof.
 Qed.
 
 (* ---------- the uniform quantizer, one coordinate ---------- *)
-Definition lvl (vmin vmax : Q) (L : Z) (k : Z) : Q := vmin + inject_Z k * ((vmax - vmin) / inject_Z (L - 1)).
+Definition lvl (vmin vmax : Q) (L : Z) (k : Z) : Q := vmin + inject_Z k * ((vmax - vmin) / (inject_Z L - 1)).
 
 Lemma usq1_q_spec vmin vmax L x : vmin <= x <= vmax -> (2 <= L)%Z ->
   exists (kf kc : Z) (t : Q),
@@ -108,8 +112,8 @@ Proof.
   intros Hx HL.
   destruct (rescale_q_spec vmin vmax x Hx) as [[Hc0 Hc1] [HcR HcZ]].
   set (c := rescale_q vmin vmax x) in *.
-  set (Lm := inject_Z (L - 1)).
-  assert (HLm : 1 <= Lm) by (unfold Lm; change 1 with (inject_Z 1); rewrite <- Zle_Qle; lia).
+  set (Lm := inject_Z L - 1).
+  assert (HLm : 1 <= Lm) by (apply Lm_ge1, HL).
   assert (HLn : ~ Lm == 0) by lra.
   set (s := c * Lm).
   assert (Hs : 0 <= s <= Lm) by (unfold s; split; nra).
@@ -121,8 +125,7 @@ Proof.
   assert (K0 : (0 <= Qfloor s)%Z).
   { assert (-1 < inject_Z (Qfloor s)) by lra. change (-1) with (inject_Z (-1)) in H. rewrite <- Zlt_Qlt in H. lia. }
   assert (K1 : (Qceiling s <= L - 1)%Z).
-  { assert (inject_Z (Qceiling s) < Lm + 1) by lra. unfold Lm in H. change 1 with (inject_Z 1) in H.
-    rewrite <- inject_Z_plus, <- Zlt_Qlt in H. lia. }
+  { assert (inject_Z (Qceiling s) < inject_Z L) by (unfold Lm in *; lra). rewrite <- Zlt_Qlt in H. lia. }
   assert (HR : 0 <= vmax - vmin) by lra.
   (* the two levels in terms of vf, vc *)
   assert (Lf : lvl vmin vmax L (Qfloor s) == vmin + usq_vf Lm c * (vmax - vmin)).
@@ -259,18 +262,17 @@ Proof.
 Qed.
 
 (* ---------- property-level statements: uniform quantizer ---------- *)
-Definition step_of (vmin vmax : Q) (L : Z) : Q := (vmax - vmin) / inject_Z (L - 1).
+Definition step_of (vmin vmax : Q) (L : Z) : Q := (vmax - vmin) / (inject_Z L - 1).
 
 Lemma lvl_step vmin vmax L k : lvl vmin vmax L k == vmin + inject_Z k * step_of vmin vmax L.
 Proof. reflexivity. Qed.
 
 Lemma lvl_top vmin vmax L : (2 <= L)%Z -> lvl vmin vmax L (L - 1) == vmax.
-Proof. intros H. unfold lvl. field. apply Lm_neq, H. Qed.
+Proof. intros H. unfold lvl. rewrite <- Lm_eq. field. apply Lm_neq, H. Qed.
 
 Lemma step_nonneg vmin vmax L : vmin <= vmax -> (2 <= L)%Z -> 0 <= step_of vmin vmax L.
 Proof.
-  intros H HL. unfold step_of. apply Qle_shift_div_l; [|lra].
-  change 0 with (inject_Z 0). rewrite <- Zlt_Qlt. lia.
+  intros H HL. unfold step_of. pose proof (Lm_ge1 L HL). apply Qle_shift_div_l; lra.
 Qed.
 
 Lemma lvl_mono vmin vmax L a b : vmin <= vmax -> (2 <= L)%Z -> (a <= b)%Z ->
@@ -385,7 +387,7 @@ Proof.
   subst out.
   assert (Hl : forall k, lvl (qmin v) (qmax v) L k == c).
   { intros k. unfold lvl. destruct Hm as [-> ->]. assert (c - c == 0) by ring.
-    setoid_replace ((c - c) / inject_Z (L - 1)) with 0; [ring|]. rewrite H. unfold Qdiv. ring. }
+    setoid_replace ((c - c) / (inject_Z L - 1)) with 0; [ring|]. rewrite H. unfold Qdiv. ring. }
   destruct (Qlt_le_dec t (nth i u 0)) as [H|H]; [rewrite (O1 H)|rewrite (O2 H)]; apply Hl.
 Qed.
 
